@@ -76,17 +76,18 @@ Definition show_query (d : rdata) (q : rquery) : string :=
 Definition exc_of (l : list str) (x : efield) : str :=
   nth (match x with XString => 0 | XFullString => 1 | XClassName => 2 | XClassQualname => 3 end)%nat l [].
 
-Definition run_save (script escaped : bool) (fa : frames_arg) (va ea : vars_arg) (cur : option frame) (e : exn)
+Definition run_save (script escaped n1_repaired : bool) (fa : frames_arg) (va ea : vars_arg) (cur : option frame) (e : exn)
            (rxt : list (str * str * nat)) (validt : list (str * bool)) (unpk : list N)
-           (umask : N) (pre : option N) (open_ok dump_ok : bool)
+           (umask : N) (pre : option N) (open_ok exc_pk : bool)
            (excs : list str) (queries : list rquery) : string :=
   let st := mkFs umask (match pre with Some m => Some (m, COld) | None => None end) in
-  let '(r, st') := saveframe (rx_lookup rxt) (valid_lookup validt) (pk_of unpk) script escaped fa va ea cur e open_ok dump_ok st in
+  let '(r, st') := saveframe (rx_lookup rxt) (valid_lookup validt) (pk_of unpk) script escaped n1_repaired fa va ea cur e open_ok exc_pk st in
   match r with
   | Err er => show_obj (("result", show_err er) :: show_fs st')
   | Ok (o, d) =>
       show_obj (("result", show_string "ok") :: ("outcome", show_outcome o)
                 :: ("frames", show_list show_saved_frame d)
+                :: ("exc_object", show_string (if exception_object_stored n1_repaired exc_pk then "object" else "placeholder"))
                 :: ("queries", match o with
                                | Saved => show_list (show_query (mkR d (exc_of excs))) queries
                                | _ => "[]"
